@@ -33,8 +33,10 @@ from yamlpath.wrappers import NodeCoords  # noqa: E402
 from ruamel.yaml.comments import CommentedSet  # noqa: E402
 
 NEW_VALUES = [9, 2.5, True, "new v", "zeta", 0, False, "b", None,
-              9007199254740993, -1700000000123456789]
-FORMATS = {"str": ["default", "dquote", "squote", "bare", "default"],
+              9007199254740993, -1700000000123456789, 10.0, 5.0, -0.5,
+              "two words here", "line one\nline two"]
+FORMATS = {"str": ["default", "dquote", "squote", "bare", "default",
+                   "folded", "literal"],
            "int": ["default", "int"], "float": ["default", "float"],
            "bool": ["default", "boolean"], "null": ["default"]}
 SIMPLE = set("abcdefghijklmnopqrstuvwxyzABCDEFGHIJKLMNOPQRSTUVWXYZ0123456789_")
@@ -782,15 +784,20 @@ WEIGHTS = {
 }
 
 
-def gen_op(rng, tree, prop):
+def gen_op(rng, tree, prop, flow=False):
     kinds = [k for k, w in WEIGHTS[prop] for _ in range(w)]
     kind = rng.choice(kinds)
     if kind == "set":
         path, form = gen_path(rng, tree, "scalar")
         value = rng.choice(NEW_VALUES)
         tname = snapshot.typed_scalar(value)[0]
+        fmt = rng.choice(FORMATS[tname])
+        if flow and fmt in ("folded", "literal"):
+            # a block scalar cannot live inside a flow collection; ruamel
+            # then emits its internal fold markers (\a) into a quoted string
+            fmt = "default"
         return {"op": "set", "path": path, "value": value,
-                "format": rng.choice(FORMATS[tname]),
+                "format": fmt,
                 "mustexist": rng.random() < 0.6, "form": form}
     if kind == "delete":
         path, form = gen_path(rng, tree, "any")
@@ -842,7 +849,7 @@ def gen_session(rng, prop, tier):
     knobs = {"text_buf": rng.choice([1, 5, 32, 8192]),
              "write_through": rng.random() < 0.5}
     return {"document": text, "doc_model": doc, "knobs": knobs,
-            "nsteps": steps, "history": [],
+            "nsteps": steps, "history": [], "flow": flow,
             "cli": tier != "library-only" and rng.random() < 0.12}
 
 
@@ -860,7 +867,7 @@ def run_session(seed, prop, shard, idx, tier):
         tree = model.build(sess.doc)
         if model.canon(tree) != snapshot.full(sess.doc):
             raise driver.HarnessError("model/snapshot disagree on build")
-        oper = gen_op(rng, tree, prop)
+        oper = gen_op(rng, tree, prop, recipe.get("flow", False))
         recipe["history"].append(oper)
         if oper.get("form"):
             sess.stats["forms"].add((oper["op"], oper["form"]))
